@@ -281,7 +281,7 @@ Lemma list_comp_case f : Q_fill c fx m f -> forall data cap rl p vs w' cp,
 Proof.
   intros HF data cap rl p vs w' cp Hi Hwf Hcal D Hsd H.
   destruct (den_comp_inv _ _ D) as (Hv & Hk & Hb & Hc & Hws & Lvs & K).
-  pose proof (Hcal Hc) as Hal.
+  destruct (Hcal Hc) as [Hal _].
   destruct (Hwf Hv) as (Hseg & Hobj). unfold wf_obj in Hobj. rewrite Hk, Hb in Hobj.
   destruct Hobj as (Ho & Hlen & _ & Hbd).
   destruct Hfx as (Hcl & Hbp & Hfn & Hfd & Hfu & Hfb).
